@@ -242,6 +242,38 @@ pub fn shrink_cases(case: &Case) -> Vec<Case> {
         }
     }
     let mut out = vec![];
+    // a corrupted call name / operator is identified by its node, which survives the
+    // removal of other statements: its byte offset is recomputed for every candidate
+    let flip_node: Option<usize> = case.plan.items.iter().find_map(|i| match i {
+        crate::plan::Item::Flip { off, .. } => (0..base.tok_off.len()).rev().find(|n| base.tok_off[*n] == Some(*off)),
+        _ => None,
+    });
+    let has_flip = case.plan.items.iter().any(|i| matches!(i, crate::plan::Item::Flip { .. }));
+    let retarget = |c: &mut Case, p: &W2Prog| -> bool {
+        if !has_flip {
+            return true;
+        }
+        let node = match flip_node {
+            Some(n) => n,
+            None => {
+                // a corrupted space has no identity of its own: keep candidates that leave
+                // the text up to and including that byte untouched (later statements removed)
+                let off = c.plan.items.iter().find_map(|i| if let crate::plan::Item::Flip { off, .. } = i { Some(*off as usize) } else { None }).unwrap_or(usize::MAX);
+                return off < p.text.len() && off < base.text.len() && p.text[..=off] == base.text[..=off];
+            }
+        };
+        match p.tok_off.get(node).copied().flatten() {
+            Some(new_off) => {
+                for it in c.plan.items.iter_mut() {
+                    if let crate::plan::Item::Flip { off, .. } = it {
+                        *off = new_off;
+                    }
+                }
+                true
+            }
+            None => false,
+        }
+    };
     // plain layout first
     if case.aux.get("layout").and_then(J::as_bool).unwrap_or(false) {
         let mut aux = case.aux.clone();
@@ -249,8 +281,10 @@ pub fn shrink_cases(case: &Case) -> Vec<Case> {
         let p = build(&aux);
         let mut c = case.clone();
         c.aux = aux;
-        c.program = p.text;
-        out.push(c);
+        if retarget(&mut c, &p) {
+            c.program = p.text;
+            out.push(c);
+        }
     }
     for id in order {
         if removed.contains(&(id as u64)) {
@@ -266,6 +300,9 @@ pub fn shrink_cases(case: &Case) -> Vec<Case> {
         }
         let mut c = case.clone();
         c.aux = aux;
+        if !retarget(&mut c, &p) {
+            continue;
+        }
         c.program = p.text;
         out.push(c);
         if out.len() >= 80 {
